@@ -249,6 +249,16 @@ func (c *Conn) writeFrame(ctx context.Context, fin bool, flate bool, opcode opco
 	}
 	defer c.writeFrameMu.unlock()
 
+	// No frame may follow a close frame (RFC 6455 section 5.5.1): not the data of
+	// writers that are still running, and not a second close frame either, be it
+	// the echo of the peer's echo or a Close called after an error already sent one.
+	if c.closeFrameSent {
+		return 0, net.ErrClosed
+	}
+	if opcode == opClose {
+		c.closeFrameSent = true
+	}
+
 	select {
 	case <-c.closed:
 		return 0, net.ErrClosed
